@@ -140,16 +140,19 @@ RW_OPTSETS = [
 def rewrite_items(tier):
     items = []
     for (k, (dur, okf)), (on, o) in itertools.product(RW_ATOMS.items(), RW_OPTSETS):
-        variants = [(False, "x"), (True, "3 * v[i] * p")]
+        # (inside a loop?, delayed expression, definition of v[i] in the loop: it must mention every symbol of the
+        # delayed expression, generate() asserts that - see the note at PLACEMENTS)
+        variants = [(False, "x", None), (True, "3 * v[i] * p", "i * a * p")]
         if tier == "thorough":
-            variants += [(False, "a * x + b + c2"), (True, "v[i]"), (False, "aa - an"), (True, "q * v[i] + c")]
-        for n, (loop, e) in enumerate(variants):
+            variants += [(False, "a * x + b + c2", None), (True, "v[i]", "i * a * p"), (False, "aa - an", None),
+                         (True, "q * v[i] + c", "i * a * q + c")]
+        for n, (loop, e, vdef) in enumerate(variants):
             if "c2" in dur + e and o.get("replace_constant_values") and not o.get("replace_constant_expressions"):
                 # replacing constant VALUES while a constant still has an expression binding leaves 'c' free in every
                 # function of the model (dae_residual included): documented precondition of that option, not C22's subject
                 continue
             if loop:
-                body = f"  y = b;\n  for i in 1:3 loop\n    v[i] = i * a * p;\n    w[i] = delay({e}, {dur});\n  end for;\n"
+                body = f"  y = b;\n  for i in 1:3 loop\n    v[i] = {vdef};\n    w[i] = delay({e}, {dur});\n  end for;\n"
             else:
                 body = f"  y = delay({e}, {dur});\n  for i in 1:3 loop\n    v[i] = i * a;\n    w[i] = v[i];\n  end for;\n"
             items.append((f"rw:dur={k}|loop={int(loop)}|e{n}|{on}", HEAD_RW + body + "end M;\n", okf(o), o, 1))
@@ -315,14 +318,21 @@ def binding_assumptions(ref, flat, opts):
     return out
 
 
-def symbol_kind(flat, name):
+def symbol_kind(flat, name, opts):
+    """'<category>:<enabled pass that removes such a symbol from the model>' of a symbol left free in the delay arguments."""
     sym = flat.classes["M"].symbols.get(name)
     if sym is None:
         return "unknown"
-    for k in ("parameter", "constant", "input"):
-        if k in sym.prefixes:
-            return k
-    return "variable"
+    lit = isinstance(sym.value, ast.Primary)
+    if "parameter" in sym.prefixes:
+        cand = ["replace_parameter_values"] if lit else ["replace_parameter_expressions"]
+        kind = "parameter"
+    elif "constant" in sym.prefixes:
+        cand = ["replace_constant_values"] if lit else ["replace_constant_expressions", "replace_constant_values"]
+        kind = "constant"
+    else:
+        cand, kind = [], ("input" if "input" in sym.prefixes else "variable")
+    return kind + ":" + next((c for c in cand if opts.get(c)), "no-pass")
 
 
 def check(col, case, text, allowed, opts, ncalls=1):
@@ -366,10 +376,10 @@ def verify_arguments(col, case, text, m, opts):
         # the accepted model cannot even produce its delay arguments.  Class id = what is missing.
         free = re.search(r"variables \[(.*?)\] are free", str(e))
         if free:
-            kinds = sorted({symbol_kind(flat, n.strip()) for n in free.group(1).split(",")})
+            kinds = sorted({symbol_kind(flat, n.strip(), opts) for n in free.group(1).split(",")})
             cid = "delay-args:free-symbol:" + "+".join(kinds)
             what = (f"transfer_model accepts the model but Model.delay_arguments_function cannot be built: the delay arguments still "
-                    f"reference [{free.group(1)}] ({'/'.join(kinds)}) which simplify() removed from the model's variables (first seen: {case})")
+                    f"reference [{free.group(1)}] ({', '.join(kinds)}) which simplify() removed from the model's variables (first seen: {case})")
         else:
             cid = f"{case}:delay-args:raises:{type(e).__name__}"
             what = f"delay_arguments_function raises {type(e).__name__}: {str(e)[-200:]}"
